@@ -136,10 +136,10 @@ fn alphabet(thorough: bool) -> Vec<(Vec<u8>, &'static str)> {
         ("\r\n".into(), "empty-line"),
         ("\n".into(), "bare-lf-empty-line"),
         (format!("OK {GUID}\n"), "bare-lf-line"),
+        (format!("OK {}\r\n", GUID.to_uppercase()), "ok-uppercase-guid"),
     ];
     if thorough {
         a.extend([
-            (format!("OK {}\r\n", GUID.to_uppercase()), "ok-uppercase-guid"),
             (format!("OK {GUID} x\r\n"), "ok-guid-extra-arg"),
             (format!("OK {}\r\n", &GUID[..30].to_string().replace('0', "g")), "ok-non-hex"),
             (format!("OK {{{HYPHEN_GUID}}}\r\n"), "ok-braced-guid"),
